@@ -13,7 +13,7 @@ Section Local4.
 
   (* a callback setting errno changes nothing but errno *)
   Theorem set_errno_only cur w e : exists t a, exec sc run_cb cur w (CSetErrno e) = ret (set_errno (emit w (TMark t a)) e) 0.
-  Proof. unfold exec, exec_call. cbn [call_handle exec_env]. eauto. Qed.
+  Proof. unfold exec, exec_own, exec_call. cbn [call_handle exec_env]. eauto. Qed.
 
   (* dispatch: the first call starts the loop, later calls deliver, the call after quit (or with nothing running) stops it *)
   Theorem dispatch_cases cur w c : the_ctx w = Some c ->
@@ -25,14 +25,14 @@ Section Local4.
     | CLooping => if c_quit c || Nat.eqb (c_running c) 0 then retp (loop_stop sc run_cb w' (do_ctx_dereg sc run_cb))
                   else retp (recv_events sc run_cb w')
     end.
-  Proof. intros H. unfold exec, exec_call. cbn [call_handle].
+  Proof. intros H. unfold exec, exec_own, exec_call. cbn [call_handle].
          match goal with |- context [the_ctx (emit w ?t)] => change (the_ctx (emit w t)) with (the_ctx w) end.
          rewrite H. eexists. eexists. cbn zeta. reflexivity. Qed.
 
   (* quit: only a looping context can be asked to quit; the code is recorded *)
   Theorem quit_sets_code cur w c code : the_ctx w = Some c -> c_state c = CLooping ->
     exists t a, exec sc run_cb cur w (CCtxQuit code) = ret (upd_ctx (emit w (TMark t a)) (ctx_with_quit true code)) 0.
-  Proof. intros H Hs. unfold exec, exec_call. cbn [call_handle].
+  Proof. intros H Hs. unfold exec, exec_own, exec_call. cbn [call_handle].
          match goal with |- context [the_ctx (emit w ?t)] => change (the_ctx (emit w t)) with (the_ctx w) end.
          rewrite H, Hs. eauto. Qed.
 
